@@ -210,6 +210,14 @@ def run(tier, res, replay=None):
                  for i, (_, _, n) in enumerate(lay)]
         return make_core(rng, types, lay, flows, gap_model=gap_model,
                          bypass_fraction=0.03, power_order=1, ncell=2, **kw)
+    lay_s = [(r_, p_, 'A') for (r_, p_) in p7]
+    fs_ = flow_for(A, 0.1)
+    starved = make_core(rng, {'A': A}, lay_s,
+                        [fs_, fs_, 0.012 * fs_, fs_, 0.9 * fs_, fs_, 1.1 * fs_],
+                        gap_model='no_flow', bypass_fraction=0.03,
+                        power_order=1, ncell=2,
+                        setup={'conv_approx': True,
+                               'conv_approx_dz_cutoff': 0.001})
     cores = [('core-mixed', core({'A': A, 'B': B},
                                  ['A', 'B', 'A', 'A', 'A', 'A', 'A']), 1),
              ('core-mixed-k2', core({'A': A, 'B': B},
@@ -233,6 +241,9 @@ def run(tier, res, replay=None):
              ('core-equal-rings-two-pitches', core(
                  {'B': B, 'B2': fitted_type(3, OF, p2d=1.12)},
                  ['B', 'B2', 'B', 'B', 'B2', 'B2', 'B']), 1),
+             # the low-flow wall approximation applies to the assembly that
+             # needs it, wherever that assembly sits in the numbering
+             ('core-one-starved-low-flow-approx', starved, 1),
              ('core-equal-rings-two-pitches-noflow', core(
                  {'B': B, 'B2': fitted_type(3, OF, p2d=1.12)},
                  ['B2', 'B', 'B2', 'B', 'B', 'B2', 'B'],
